@@ -1,10 +1,20 @@
-// Prototype (scratch): isolated worker for C14. Reads lines "<KIND> <hex>", deserializes under catch_unwind with a
-// counting allocator; a single request above LIMIT(len) writes "OVERALLOC <n>" to stderr and aborts the process.
-use cosmian_cover_crypt::{AccessStructure, EncryptedHeader, MasterPublicKey, MasterSecretKey, UserSecretKey, XEnc};
+// C14 worker: deserializes untrusted bytes under catch_unwind with a counting allocator and a watchdog, then USES
+// every value that parsed (decapsulation, header decryption, accessors).
+//   worker gen              -> prints valid objects "KIND hex" of all six kinds (small structure)
+//   worker run              -> reads "KIND hex" lines; per line prints "BEGIN k" then
+//                              "END k <ok|err|panic> use=<ok|panic|-> maxreq=<n> total=<n> us=<micros>"
+// A single allocation request above 64*len + 1 MiB prints "OVERALLOC <n>" on stderr and aborts the process (the
+// parent restarts the worker after that input). alarm(5) kills a worker stuck on one input (SIGALRM).
+use cosmian_cover_crypt::{
+    api::Covercrypt, traits::KemAc, AccessPolicy, AccessStructure, EncryptedHeader, EncryptionHint, MasterPublicKey,
+    MasterSecretKey, QualifiedAttribute, UserSecretKey, XEnc,
+};
 use cosmian_crypto_core::bytes_ser_de::Serializable;
 use std::alloc::{GlobalAlloc, Layout, System};
 use std::io::{BufRead, Write};
 use std::sync::atomic::{AtomicUsize, Ordering};
+
+extern "C" { fn alarm(seconds: u32) -> u32; }
 
 static LIMIT: AtomicUsize = AtomicUsize::new(usize::MAX);
 static MAXREQ: AtomicUsize = AtomicUsize::new(0);
@@ -17,7 +27,8 @@ unsafe impl GlobalAlloc for Counting {
     unsafe fn dealloc(&self, p: *mut u8, l: Layout) { System.dealloc(p, l) }
 }
 fn check(n: usize) {
-    MAXREQ.fetch_max(n, Ordering::Relaxed); TOTAL.fetch_add(n, Ordering::Relaxed);
+    MAXREQ.fetch_max(n, Ordering::Relaxed);
+    TOTAL.fetch_add(n, Ordering::Relaxed);
     if n > LIMIT.load(Ordering::Relaxed) {
         let mut buf = [0u8; 40]; let mut i = buf.len(); let mut v = n;
         loop { i -= 1; buf[i] = b'0' + (v % 10) as u8; v /= 10; if v == 0 { break; } }
@@ -28,26 +39,94 @@ fn check(n: usize) {
 #[global_allocator]
 static A: Counting = Counting;
 
-fn unhex(s:&str)->Vec<u8>{ (0..s.len()/2).map(|i| u8::from_str_radix(&s[2*i..2*i+2],16).unwrap()).collect() }
-fn main(){
-    std::panic::set_hook(Box::new(|_|{}));
-    let stdin=std::io::stdin();
-    for (k,line) in stdin.lock().lines().enumerate(){
-        let line=line.unwrap(); let (kind,h)=line.split_once(' ').unwrap(); let b=unhex(h);
-        println!("BEGIN {}",k); std::io::stdout().flush().unwrap();
-        MAXREQ.store(0,Ordering::Relaxed); TOTAL.store(0,Ordering::Relaxed);
-        LIMIT.store(64*b.len()+(1<<20),Ordering::Relaxed);
-        let r=std::panic::catch_unwind(|| match kind {
-            "ENC"=>XEnc::deserialize(&b).map(|e| { let _=e.tracing_level(); let _=e.count(); }).is_ok(),
-            "USK"=>UserSecretKey::deserialize(&b).map(|u| { let _=u.tracing_level(); }).is_ok(),
-            "MSK"=>MasterSecretKey::deserialize(&b).is_ok(),
-            "MPK"=>MasterPublicKey::deserialize(&b).map(|p| { let _=p.tracing_level(); }).is_ok(),
-            "ST"=>AccessStructure::deserialize(&b).is_ok(),
-            "HDR"=>EncryptedHeader::deserialize(&b).is_ok(),
-            _=>false });
-        LIMIT.store(usize::MAX,Ordering::Relaxed);
-        match r { Ok(true)=>println!("END {} ok maxreq={} total={}",k,MAXREQ.load(Ordering::Relaxed),TOTAL.load(Ordering::Relaxed)),
-                  Ok(false)=>println!("END {} err maxreq={} total={}",k,MAXREQ.load(Ordering::Relaxed),TOTAL.load(Ordering::Relaxed)),
-                  Err(_)=>println!("END {} panic",k) }
+fn hex(b: &[u8]) -> String { b.iter().map(|x| format!("{:02x}", x)).collect() }
+fn unhex(s: &str) -> Vec<u8> { (0..s.len() / 2).map(|i| u8::from_str_radix(&s[2 * i..2 * i + 2], 16).unwrap()).collect() }
+fn qa(d: &str, n: &str) -> QualifiedAttribute { QualifiedAttribute::new(d, n) }
+fn ap(s: &str) -> AccessPolicy { AccessPolicy::parse(s).unwrap() }
+
+struct Good { cc: Covercrypt, msk: MasterSecretKey, mpk: MasterPublicKey, usk: UserSecretKey, usk_h: UserSecretKey, enc_c: XEnc, enc_h: XEnc, hdr: EncryptedHeader, hdr0: EncryptedHeader }
+fn scenario() -> Good {
+    let cc = Covercrypt::default();
+    let (mut msk, _) = cc.setup().unwrap();
+    let st = &mut msk.access_structure;
+    st.add_anarchy("D".into()).unwrap();
+    st.add_attribute(qa("D", "a"), EncryptionHint::Classic, None).unwrap();
+    st.add_attribute(qa("D", "b"), EncryptionHint::Hybridized, None).unwrap();
+    st.add_hierarchy("S".into()).unwrap();
+    st.add_attribute(qa("S", "l"), EncryptionHint::Classic, None).unwrap();
+    cc.update_msk(&mut msk).unwrap();
+    let mut usk = cc.generate_user_secret_key(&mut msk, &ap("D::a && S::l")).unwrap();
+    let usk_h = cc.generate_user_secret_key(&mut msk, &ap("D::b")).unwrap();
+    cc.rekey(&mut msk, &ap("D::a")).unwrap();
+    cc.refresh_usk(&mut msk, &mut usk, true).unwrap();
+    let mpk = cc.update_msk(&mut msk).unwrap();
+    let (_, enc_c) = cc.encaps(&mpk, &ap("D::a || S::l")).unwrap();
+    let (_, enc_h) = cc.encaps(&mpk, &ap("D::b")).unwrap();
+    let (_, hdr) = EncryptedHeader::generate(&cc, &mpk, &ap("D::a"), Some(b"some metadata"), Some(b"ad")).unwrap();
+    let (_, hdr0) = EncryptedHeader::generate(&cc, &mpk, &ap("D::b"), None, None).unwrap();
+    Good { cc, msk, mpk, usk, usk_h, enc_c, enc_h, hdr, hdr0 }
+}
+
+fn main() {
+    std::panic::set_hook(Box::new(|_| {}));
+    let a: Vec<String> = std::env::args().collect();
+    let g = scenario();
+    if a.len() > 1 && a[1] == "gen" {
+        println!("MSK {}", hex(&g.msk.serialize().unwrap()));
+        println!("MPK {}", hex(&g.mpk.serialize().unwrap()));
+        println!("USK {}", hex(&g.usk.serialize().unwrap()));
+        println!("USK {}", hex(&g.usk_h.serialize().unwrap()));
+        println!("ENC {}", hex(&g.enc_c.serialize().unwrap()));
+        println!("ENC {}", hex(&g.enc_h.serialize().unwrap()));
+        println!("HDR {}", hex(&g.hdr.serialize().unwrap()));
+        println!("HDR {}", hex(&g.hdr0.serialize().unwrap()));
+        println!("ST {}", hex(&g.msk.access_structure.serialize().unwrap()));
+        println!("ST {}", hex(&AccessStructure::new().serialize().unwrap()));
+        return;
+    }
+    let stdin = std::io::stdin();
+    for (k, line) in stdin.lock().lines().enumerate() {
+        let line = line.unwrap();
+        let (kind, h) = match line.split_once(' ') { Some(x) => x, None => continue };
+        let b = unhex(h);
+        println!("BEGIN {}", k);
+        std::io::stdout().flush().unwrap();
+        MAXREQ.store(0, Ordering::Relaxed); TOTAL.store(0, Ordering::Relaxed);
+        unsafe { alarm(5); }
+        let t0 = std::time::Instant::now();
+        LIMIT.store(64 * b.len() + (1 << 20), Ordering::Relaxed);
+        // 0 = err, 1 = ok ; use: 0 = not applicable, 1 = fine, 2 = panicked
+        let r = std::panic::catch_unwind(|| -> (u8, u8) {
+            match kind {
+                "ENC" => match XEnc::deserialize(&b) { Err(_) => (0, 0), Ok(e) => {
+                    let u = std::panic::catch_unwind(|| { let _ = e.tracing_level(); let _ = e.count(); let _ = g.cc.decaps(&g.usk, &e); let _ = g.cc.decaps(&g.usk_h, &e);
+                        let _ = g.cc.recaps(&g.msk, &g.mpk, &e); let _ = e.serialize().map(|s| s.len() == e.length()); });
+                    (1, if u.is_ok() { 1 } else { 2 }) } },
+                "USK" => match UserSecretKey::deserialize(&b) { Err(_) => (0, 0), Ok(u) => {
+                    let r = std::panic::catch_unwind(|| { let _ = u.tracing_level(); let _ = u.count(); let _ = g.cc.decaps(&u, &g.enc_c); let _ = g.cc.decaps(&u, &g.enc_h);
+                        let _ = g.hdr.decrypt(&g.cc, &u, Some(b"ad")); let _ = u.serialize().map(|s| s.len() == u.length()); });
+                    (1, if r.is_ok() { 1 } else { 2 }) } },
+                "MSK" => match MasterSecretKey::deserialize(&b) { Err(_) => (0, 0), Ok(m) => {
+                    let r = std::panic::catch_unwind(|| { let _ = m.mpk().map(|p| p.tracing_level()); let _ = g.cc.recaps(&m, &g.mpk, &g.enc_c); let _ = m.serialize().map(|s| s.len() == m.length()); });
+                    (1, if r.is_ok() { 1 } else { 2 }) } },
+                "MPK" => match MasterPublicKey::deserialize(&b) { Err(_) => (0, 0), Ok(p) => {
+                    let r = std::panic::catch_unwind(|| { let _ = p.tracing_level(); let _ = g.cc.encaps(&p, &ap("*")); let _ = g.cc.encaps(&p, &ap("D::a")); let _ = p.serialize().map(|s| s.len() == p.length()); });
+                    (1, if r.is_ok() { 1 } else { 2 }) } },
+                "ST" => match AccessStructure::deserialize(&b) { Err(_) => (0, 0), Ok(s) => {
+                    let r = std::panic::catch_unwind(|| { let _ = s.dimensions().count(); let _ = s.attributes().count(); let _ = s.ap_to_usk_rights(&ap("*")).map(|r| r.len()); let _ = s.serialize().map(|x| x.len() == s.length()); });
+                    (1, if r.is_ok() { 1 } else { 2 }) } },
+                "HDR" => match EncryptedHeader::deserialize(&b) { Err(_) => (0, 0), Ok(hd) => {
+                    let r = std::panic::catch_unwind(|| { let _ = hd.decrypt(&g.cc, &g.usk, Some(b"ad")); let _ = hd.decrypt(&g.cc, &g.usk_h, None); let _ = hd.serialize().map(|s| s.len() == hd.length()); });
+                    (1, if r.is_ok() { 1 } else { 2 }) } },
+                _ => (0, 0),
+            }
+        });
+        LIMIT.store(usize::MAX, Ordering::Relaxed);
+        unsafe { alarm(0); }
+        let us = t0.elapsed().as_micros();
+        match r {
+            Ok((p, u)) => println!("END {} {} use={} maxreq={} total={} us={}", k, if p == 1 { "ok" } else { "err" }, ["-", "ok", "panic"][u as usize], MAXREQ.load(Ordering::Relaxed), TOTAL.load(Ordering::Relaxed), us),
+            Err(_) => println!("END {} panic use=- maxreq={} total={} us={}", k, MAXREQ.load(Ordering::Relaxed), TOTAL.load(Ordering::Relaxed), us),
+        }
     }
 }
